@@ -50,6 +50,9 @@ pub enum Op {
     AttackerChallenge { e: u8, which: u8 },
     /// unsolicited traffic before/without handshake on endpoint #e
     AttackerOther { e: u8, tag: u8 },
+    /// the connection behind endpoint #e drops (0 = the honest link, both ends); it can be opened again
+    /// with Connect, under the same connection index (as a static peer is re-dialled)
+    Disconnect(u8),
 }
 
 #[derive(Debug, Clone, Serialize, Deserialize, PartialEq, Eq, Hash)]
@@ -65,6 +68,7 @@ pub struct Info {
     pub relay_observed: usize,
     pub failed_attempts: usize,
     pub replays: usize,
+    pub disconnects: usize,
     pub redirects: usize,
 }
 
@@ -187,6 +191,30 @@ pub fn run_case(case: &Case) -> (Vec<(String, String)>, Info) {
                     let buf = wire[d].remove(0);
                     let (ni, idx) = if d == 0 { B_FROM_A } else { A_TO_B };
                     delivered = Some((ni, idx, buf));
+                }
+            }
+            Op::Disconnect(c) => {
+                opname = "disconnect";
+                let eps: Vec<(usize, u64)> = match c % 4 {
+                    0 => vec![A_TO_B, B_FROM_A],
+                    1 => vec![B_FROM_ATT],
+                    2 => vec![A_FROM_ATT],
+                    _ => vec![B_FROM_ATT2],
+                };
+                for (ni, idx) in eps {
+                    if opened.remove(&(ni, idx)) {
+                        info.disconnects += 1;
+                        let o = nodes[ni].net_event(NetworkEvent::PeerDisconnected { peer_index: idx, disconnect_type: saito_core::core::io::network::PeerDisconnectType::ExternalDisconnect });
+                        if let HandlerOutcome::Panicked(site, msg) = o {
+                            v.push((format!("C17|panic|site={site}|op=disconnect"), format!("step {step}: disconnect handler panicked at {site}: {msg}")));
+                        }
+                        // whatever was issued on the dropped connection is void for its successor
+                        issued.remove(&(ni, idx));
+                    }
+                }
+                if c % 4 == 0 {
+                    wire[0].clear();
+                    wire[1].clear();
                 }
             }
             Op::Drop(d) => {
@@ -391,6 +419,7 @@ fn eval(c: &mut Ctx, case: &Case, counting: bool) -> Vec<(String, String)> {
             (info.relay_observed, "relay_observed(unflagged)"),
             (info.failed_attempts, "deliveries_without_completion"),
             (info.replays, "replays"),
+            (info.disconnects, "connections_dropped"),
             (info.redirects, "redirected_messages"),
         ] {
             if n > 0 {
@@ -414,11 +443,12 @@ pub fn arb_op() -> impl Strategy<Value = Op> {
         4 => (0u8..5, 0u8..3, prop_oneof![4 => Just(0u8), 1 => Just(1u8), 1 => Just(2u8)], 0u8..2).prop_map(|(e, over, version, claim)| Op::AttackerResponse { e, over, version, claim }),
         2 => (0u8..5, 0u8..2).prop_map(|(e, which)| Op::AttackerChallenge { e, which }),
         1 => (0u8..5, 0u8..2).prop_map(|(e, tag)| Op::AttackerOther { e, tag }),
+        2 => (0u8..4).prop_map(Op::Disconnect),
     ]
 }
 
 pub fn run(ctx: &mut Ctx) {
-    ctx.rule = "two honest nodes built from the real routing threads (A connects to B) and an attacker with three connections of its own (two to B, one to A) who also sits on the honest link; generated sequences of 4..14 operations: connect, deliver in order, drop, reorder, replay any observed message to any endpoint (incl. redirect across connections and reflection), attacker responses signed with its own key over the right / another connection's / a random challenge with ok / unset / incompatible version claiming its own or the honest peer's key, attacker challenges (random, or another endpoint's challenge: signing-oracle attempt), unsolicited traffic. monitor (from the honest nodes' outgoing messages the harness knows which challenge each node issued on which connection): every handshake completion (interface event or status change to Connected under key K) must coincide with the delivery, on that connection, of a response whose signature verifies for K over a challenge issued by this node on this connection that was not accepted before; a delivery that completes nothing leaves status, key and key->connection entry of every other authenticated connection unchanged. evaluations = operations. non-trivial = sequence with a completed handshake side and a delivery that completed nothing; distinct by case digest".into();
+    ctx.rule = "two honest nodes built from the real routing threads (A connects to B) and an attacker with three connections of its own (two to B, one to A) who also sits on the honest link; generated sequences of 4..14 operations: connect, deliver in order, drop, reorder, replay any observed message to any endpoint (incl. redirect across connections and reflection), attacker responses signed with its own key over the right / another connection's / a random challenge with ok / unset / incompatible version claiming its own or the honest peer's key, attacker challenges (random, or another endpoint's challenge: signing-oracle attempt), unsolicited traffic, dropped connections that are dialled again under the same connection index (plus a directed family: the honest link drops at every point of the handshake, is re-dialled, and every message seen so far is replayed to either end). monitor (from the honest nodes' outgoing messages the harness knows which challenge each node issued on which connection): every handshake completion (interface event or status change to Connected under key K) must coincide with the delivery, on that connection, of a response whose signature verifies for K over a challenge issued by this node on this connection that was not accepted before; a delivery that completes nothing leaves status, key and key->connection entry of every other authenticated connection unchanged. evaluations = operations. non-trivial = sequence with a completed handshake side and a delivery that completed nothing; distinct by case digest".into();
     ctx.assumptions.push("The attacker cannot forge signatures. A live relay of the very challenge (K signs, in its own handshake, the challenge the victim issued to the attacker) satisfies the statement's letter and is counted, not flagged.".into());
     // directed prefix: the honest handshake, in order, must complete on both sides
     let honest = Case { ops: vec![Op::Connect(0), Op::Deliver(1), Op::Deliver(0), Op::Deliver(1)] };
@@ -431,6 +461,35 @@ pub fn run(ctx: &mut Ctx) {
     if i0.honest_completed != 2 {
         ctx.violation("C17|honest_handshake_does_not_complete", format!("the undisturbed handshake completed on {} of 2 sides", i0.honest_completed), json!({"check": "honest_in_order", "case": honest}));
     }
+    // directed: the honest link drops after 0..3 steps of the handshake (optionally with the last
+    // message withheld), is dialled again, and every message seen so far is replayed to either end of
+    // the new connection, after which the handshake is carried on in order
+    let honest_steps = [Op::Deliver(1), Op::Deliver(0), Op::Deliver(1)];
+    let mut directed = 0u64;
+    for cut in 0..=3usize {
+        for withhold in [false, true] {
+            for k in 0..8u8 {
+                for e in 0..2u8 {
+                    let mut ops = vec![Op::Connect(0)];
+                    ops.extend_from_slice(&honest_steps[..cut]);
+                    if withhold {
+                        ops.push(Op::Drop(1));
+                        ops.push(Op::Drop(0));
+                    }
+                    ops.push(Op::Disconnect(0));
+                    ops.push(Op::Connect(0));
+                    ops.push(Op::Replay { k, e });
+                    ops.extend_from_slice(&honest_steps);
+                    let case = Case { ops };
+                    directed += 1;
+                    for (key, w) in eval(ctx, &case, true) {
+                        ctx.violation(&key, w, json!({"check": "reconnect_and_replay", "case": case}));
+                    }
+                }
+            }
+        }
+    }
+    ctx.extra.insert("directed_reconnect_and_replay_cases".into(), json!(directed));
     let strat = proptest::collection::vec(arb_op(), 4..15).prop_map(|mut ops| {
         // most sequences start by opening the honest link and an attacker link
         if ops.len() % 3 != 0 {
